@@ -59,6 +59,12 @@ deriving Repr, Inhabited
 
 def lookupKey (p : Proc) : WareId := if p.altering then [0x2d] else p.req   -- `api.WareID{"-","-"}` forces a miss
 
+/-- where `populate` commits an unpacked tree that the tool reported as `rid`.  A *filtered* tree that the tool reports
+    under the id of the unfiltered ware (git has no id for a filtered tree; `dev=ignore` only touches what the tree hash
+    does not cover) gets a shelf of its own, keyed by the filter as well (`wareID.Hash + "+" + filterKey(filt)`, since
+    the `fix:`): `+` is not a base58 letter, so such a key is never the key of a lossless lookup. -/
+def shelfKey (p : Proc) (rid : WareId) : WareId := if p.altering ∧ rid = p.req then rid ++ [0x2b] else rid
+
 def hasShelf (s : CState) (k : WareId) : Bool := s.shelves.any (·.1 = k)
 
 def setProc (s : CState) (i : Nat) (p : Proc) : CState := { s with procs := s.procs.set i p }
@@ -87,15 +93,18 @@ def cstep (s : CState) (i : Nat) : CState :=
       | .error c =>
         -- unpack tool failed: deferred RemoveAll(tmp), error returned
         setProc s i { p with pc := .done (.error c), tmp := none }
-      | .ok rid => setProc s i { p with pc := .atUnpacked rid, tmp := some (.complete rid) }
+      | .ok rid =>
+        -- the temp dir now holds exactly the tree that `shelfKey` names: the ware `rid` itself, or — altering filter, same
+        -- id reported — the filtered variant of it, which is *not* the fileset `rid` names
+        setProc s i { p with pc := .atUnpacked rid, tmp := some (.complete (shelfKey p rid)) }
     | .atUnpacked rid => setProc s i { p with pc := .atRename rid }
     | .atRename rid =>
-      if hasShelf s rid then
+      if hasShelf s (shelfKey p rid) then
         -- EEXIST / ENOTEMPTY: somebody raced us; our copy is removed by the deferred RemoveAll
-        setProc s i { p with pc := .atPlace rid rid, tmp := none }
+        setProc s i { p with pc := .atPlace (shelfKey p rid) rid, tmp := none }
       else
-        setProc { s with shelves := (rid, p.tmp.getD .partial_) :: s.shelves } i { p with pc := .atRenamed rid, tmp := none }
-    | .atRenamed rid => setProc s i { p with pc := .atPlace rid rid }
+        setProc { s with shelves := (shelfKey p rid, p.tmp.getD .partial_) :: s.shelves } i { p with pc := .atRenamed rid, tmp := none }
+    | .atRenamed rid => setProc s i { p with pc := .atPlace (shelfKey p rid) rid }
     | .atPlace _ rid => setProc s i { p with pc := .done (.ok rid) }
 
 def runSchedule (s : CState) (sched : List Nat) : CState := sched.foldl cstep s
